@@ -136,6 +136,7 @@ func Main(gen func(g *Gen), exec func(kind string, in []string) []string) {
 				w.WriteString(o)
 			}
 			w.WriteByte('\n')
+			w.Flush() // one case per flush: if the code under test kills the process, the culprit is the next input
 		}
 	default:
 		fmt.Fprintln(os.Stderr, "unknown mode", os.Args[1])
